@@ -64,6 +64,27 @@ def synthetic_split():
     return Crystal(c.unit_cell, c.space_group, asym, titl="synthetic-split")
 
 
+def synthetic_near_special():
+    """R3 with an atom NEAR the three-fold axis, as a CIF quotes it to three decimals (0.333, 0.667, z): its three images are 0.0006
+    of a cell edge apart — one site at the default merge tolerance of every query"""
+    from chmpy.core.element import Element
+    from chmpy.crystal import AsymmetricUnit, Crystal, SpaceGroup, UnitCell
+    uc = UnitCell.hexagonal(10.0, 12.0)
+    asym = AsymmetricUnit([Element[6], Element[8]], np.array([[0.333, 0.667, 0.21], [0.12, 0.31, 0.45]]), labels=["C1", "O1"])
+    return Crystal(uc, SpaceGroup(146, choice="H"), asym, titl="near-special")
+
+
+def synthetic_cif_sqrt6():
+    """a crystal LOADED FROM A CIF whose hexagonal cell has c/a = sqrt(6): the rhombohedral cell then has the same edge length a
+    (angle 60 degrees), only c and the angles change in a trigonal switch"""
+    from chmpy.core.element import Element
+    from chmpy.crystal import AsymmetricUnit, Crystal, SpaceGroup, UnitCell
+    uc = UnitCell.hexagonal(4.0, round(4.0 * math.sqrt(6.0), 6))
+    asym = AsymmetricUnit([Element[14], Element[8]], np.array([[0.0, 0.0, 0.13], [0.21, 0.08, 0.37]]), labels=["Si1", "O1"])
+    c = Crystal(uc, SpaceGroup(166, choice="H"), asym, titl="sqrt6")
+    return Crystal.from_cif_string(c.to_cif_string())
+
+
 def ordered(c, q):
     """order-SENSITIVE form of a list-valued answer (users index these lists)"""
     mols = getattr(c, q)()
@@ -137,6 +158,11 @@ def canon(c, q):
     if q == "atoms_in_radius":
         r = c.atoms_in_radius(4.0, origin=(0.3, 0.2, 0.1))
         return ("air", len(r["element"]), sorted(round(float(x), 4) for x in r["distance"]) if "distance" in r else sorted(int(e) for e in r["element"]))
+    if q == "to_poscar_string":
+        txt = c.to_poscar_string()
+        L_ = txt.splitlines()
+        counts = [int(x) for x in L_[6].split()] if len(L_) > 6 else []
+        return ("poscar", sum(counts), tuple(L_[5].split()) if len(L_) > 5 else ())
     if q == "to_cif_string":
         from chmpy.crystal import Crystal
         c2 = Crystal.from_cif_string(c.to_cif_string())
@@ -284,6 +310,14 @@ def _all(ctx, budget):
     plans.append((load_both_tags, "r3c_example.cif with the symmetry loop under both the legacy and the current tag",
                   [(("q", "to_cif_string"), ("sw", "R"), ("q", "to_cif_string"), ("q", "unit_cell_atoms")),
                    (("sw", "R"), ("q", "to_cif_string"), ("sw", "H"), ("q", "to_cif_string"))]))
+    pq = ["to_poscar_string", "unit_cell_atoms", "density", "to_cif_string"]
+    plans.append((synthetic_near_special, "R3 with an atom 0.0006 from the three-fold axis, POSCAR export among the queries",
+                  [h for h in histories(ctx, 3, 0, pq) if any(x == ("q", "to_poscar_string") for x in h)][:120]
+                  + [(("q", "to_poscar_string"), ("q", "unit_cell_atoms")), (("sw", "R"), ("q", "to_poscar_string"), ("q", "unit_cell_atoms"), ("q", "density"))]))
+    plans.append((synthetic_cif_sqrt6, "R-3m loaded from a CIF, c/a = sqrt(6) (a is the same in both settings)",
+                  [(("q", "to_cif_string"), ("sw", "R"), ("q", "to_cif_string"), ("q", "density")),
+                   (("sw", "R"), ("q", "to_cif_string"), ("sw", "H"), ("q", "to_cif_string")),
+                   (("sw", "R"), ("q", "density"), ("q", "to_cif_string"))]))
     if budget != "quick":
         plans.append((lambda: load("r3c_example.cif"), "r3c_example.cif", histories(ctx, 2, 40, ["unit_cell_atoms", "density", "to_cif_string", "atoms_in_radius"])))
         plans.append((lambda: load("acetic_acid.cif"), "acetic_acid.cif", histories(ctx, 2, 60, QUERIES)))
@@ -336,11 +370,54 @@ def search(ctx, budget):
                      {"structure": name, "history": [list(x) for x in h]})
             if len(ctx.failures) >= 12:
                 break
+    ctx.case({"structure": "two crystals sharing one UnitCell object"}, nontrivial=True)
+    try:
+        r = judge_shared()
+    except Exception as ex:  # noqa
+        r = f"shared-cell scenario raised {type(ex).__name__}: {ex}"
+    if r:
+        ctx.fail("C14:shared-unit-cell", r, {"shared": True})
+
+
+def judge_shared():
+    """two crystals built on the SAME UnitCell and SpaceGroup objects (as the package's own tests do with a module-level cell): operating
+    on one of them must not change what the other one answers"""
+    from chmpy.crystal import AsymmetricUnit, Crystal
+    a = synthetic()
+    b = Crystal(a.unit_cell, a.space_group, AsymmetricUnit(list(a.asymmetric_unit.elements), np.array(a.asymmetric_unit.positions, dtype=float).copy(),
+                                                            labels=np.array(a.asymmetric_unit.labels).copy()), titl="twin")
+    qs = ["unit_cell_atoms", "density", "to_cif_string", "unit_cell_molecules"]
+    for switch_first in (False, True):
+        if switch_first:
+            a, b = synthetic(), None
+            b = Crystal(a.unit_cell, a.space_group, AsymmetricUnit(list(a.asymmetric_unit.elements), np.array(a.asymmetric_unit.positions, dtype=float).copy(),
+                                                                    labels=np.array(a.asymmetric_unit.labels).copy()), titl="twin")
+        else:
+            for q in qs:
+                canon(b, q)
+        want = {q: canon(fresh_of(b), q) for q in qs}
+        key0 = base_key(b)
+        a.choose_trigonal_lattice("R")
+        canon(a, "unit_cell_atoms")
+        if base_key(b) != key0:
+            return ("choose_trigonal_lattice on one crystal changed the cell / space group / asymmetric unit of ANOTHER crystal built on the same "
+                    "UnitCell and SpaceGroup objects")
+        for q in qs:
+            got = canon(b, q)
+            if not approx_eq(got, want[q]):
+                return (f"after choose_trigonal_lattice('R') on a crystal sharing its UnitCell object, the untouched crystal answers {q} differently from a "
+                        f"fresh crystal with its cell, space group and asymmetric unit: {str(got)[:150]} vs {str(want[q])[:150]}")
+    return None
 
 
 def replay(ctx, obj):
     i = obj["input"]
+    if i.get("shared"):
+        return judge_shared()
     slots = gen_cc.scan()["slots"]
-    make = synthetic if i["structure"].startswith("synthetic") else (lambda: load(i["structure"]))
+    st = i["structure"]
+    make = (synthetic_near_special if st.startswith("R3 with an atom") else synthetic_cif_sqrt6 if st.startswith("R-3m loaded") else
+            synthetic_split if "split" in st else synthetic_disorder if st.startswith("P1 with two") else load_modern_tags if "_space_group_symop_*" in st else
+            load_both_tags if "both the legacy" in st else synthetic if st.startswith("synthetic") else (lambda: load(st)))
     _, _, fails, _ = run_history(make, [tuple(x) for x in i["history"]], slots)
     return fails[0] if fails else None
